@@ -383,7 +383,8 @@ pub fn build(quick: bool) -> Vec<Scenario> {
     // the first-grab branch of lock()
     for w in [1usize, 2] {
         for (bt, ch) in [(true, false), (false, false), (true, true), (false, true)] {
-            if quick && w == 1 && !bt {
+            // (two coroutines held at breakpoints keep two workers busy)
+            if w == 1 && !bt {
                 continue;
             }
             v.push(
